@@ -64,6 +64,12 @@ def cases(tier, rng):
         cache = 1 if rng.random() < 0.7 else 0
         nn = rng.randint(3, 14)
         ds = nets.random_graph(rng, nn, 0.1) if rng.random() < 0.3 else nets.random_forest(rng, nn)
+        d8row = None
+        if raster and rng.random() < 0.3:
+            # a one-row D8 raster parsed with from_array: streams also leave the raster or end at missing cells, so the pits
+            # are more than the cells with a pit code (round-5 seed: a save/load round trip that kept only the latter)
+            d8row = [rng.choice([1, 1, 16, 16, 0, 247]) for _ in range(nn)]
+            ds = nets.d8_decode(d8row, 1, nn)
         if not nets.pits(ds):
             continue
         cur = list(ds)
@@ -100,8 +106,11 @@ def cases(tier, rng):
                 c = 2          # the vector class has no basins(): query the pits instead
             ops.append((c, a))
         hasarea = int((not raster) and rng.random() < 0.5)       # vector objects built with user node areas
+        if d8row and rng.random() < 0.6:
+            ops = [(20, 0)] + ops          # saved and loaded before anything was computed
         yield {"k": 1201, "args": [[raster, cache, hasarea], [x for p in ops for x in p]],
-               "call": {"ds": ds, "seed": rng.randrange(10**6)}, "group": f"rand-{'raster' if raster else 'vector'}-cache{cache}" + ("-area" if hasarea else "")}
+               "call": dict({"ds": ds, "seed": rng.randrange(10**6)}, **({"d8row": d8row} if d8row else {})),
+               "group": f"rand-{'raster' if raster else 'vector'}-cache{cache}" + ("-area" if hasarea else "") + ("-parsed" if d8row else "")}
 
 
 def _arr(kind, k, n):
@@ -151,6 +160,8 @@ def impl(case):
     tr = Affine(0.5, 0.0, 100.0, 0.0, -0.5, 40.0)
     latlon = False
     obj = build(ds_array(ds0), tr, latlon, cache)
+    if raster and case["call"].get("d8row"):
+        obj = pyflwdir.from_array(np.array(case["call"]["d8row"], dtype=np.uint8).reshape(shape), ftype="d8", transform=tr, latlon=latlon, cache=bool(cache))
     tcount = 0
     out = []
 
